@@ -289,12 +289,43 @@ def monitor_b(ctx, rng):
             lb = lib_build(d, v, kw)
             if lb[0] != "ok":
                 continue
+            truncations(ctx, r, d, kw, lb[1])
+        if i < 1 and ctx.index < 2:
+            ctx.sample({"monitor": "b", "recipe": r, "all_truncation_offsets": True})
+    # explicit strict formats the grammar does not produce: a Union that ends at its longest member (selected by name, index or
+    # expression; the other members look no further), FocusedSeq, nested scopes
+    I16, I32, I24 = ["name", "Int16ub"], ["name", "Int32ub"], ["name", "Int24ub"]
+    explicit = [
+        (["Struct", [["u", ["Union", "b", [["a", I16], ["b", I32]]]], ["t", I16]]], {"u": {"b": 0x01020304}, "t": 5}, {}),
+        (["Struct", [["u", ["Union", 1, [[None, ["Const", tag(b"\x01"), None]], ["b", I24]]]], ["t", B]]], {"u": {"b": 0x010203}, "t": 5}, {}),
+        (["Sequence", [[None, B], [None, ["Union", ["this", "_params", "sel"], [["a", B], ["b", I32], ["c", I16]]]], [None, I16]]], [7, {"b": 0x01020304}, 9], {"sel": "b"}),
+        (["Struct", [["h", B], ["u", ["Union", "w", [["v", ["Struct", [["x", B], ["y", B]]]], ["w", ["Struct", [["n", B], ["d", ["Bytes", 3]]]]]]]], ["t", I16]]], {"h": 1, "u": {"w": {"n": 1, "d": b"abc"}}, "t": 2}, {}),
+        (["FocusedSeq", "v", [["n", B], ["v", ["Bytes", ["this", "n"]]], [None, ["Const", tag(b"\xfe"), None]]]], None, {}),
+    ]
+    for i, (r, v, kw) in enumerate(explicit):
+        if not ctx.mine(i):
+            continue
+        d = mk(r)
+        if v is None:
+            e = b"\x03abc\xfe"
+        else:
+            lb = lib_build(d, v, kw)
+            if lb[0] != "ok":
+                ctx.count("b_explicit_not_buildable")
+                continue
             e = lb[1]
+        truncations(ctx, r, d, kw, e)
+
+
+def truncations(ctx, r, d, kw, e):
+    import construct as C
+    if True:
+        if True:
             try:
                 d.parse(e, **kw)
             except Exception:
                 ctx.count("b_canonical_not_parseable")     # C01's subject
-                continue
+                return
             for t in range(len(e)):
                 ctx.ev()
                 case = {"monitor": "b", "recipe": r, "kw": kw, "encoding": tag(e), "cut": t}
@@ -314,8 +345,6 @@ def monitor_b(ctx, rng):
             ctx.count("b_truncations", len(e))
             if len(e) > 1:
                 ctx.nontrivial("b", shape(r), len(e))
-        if i < 1 and ctx.index < 2:
-            ctx.sample({"monitor": "b", "recipe": r, "all_truncation_offsets": True})
 
 
 def trunc_key(r, e, t, kw):
@@ -378,7 +407,7 @@ def monitor_c(ctx, rng):
             data = bytes(rng.choice([0, 1, 2, 3, 0x41, 0]) for _ in range(12))
         fault_runs(ctx, d, r, kw, absorbing, "parse", data, None)
         if lb[0] == "ok":
-            fault_runs(ctx, d, r, kw, absorbing, "build", None, v)
+            fault_runs(ctx, d, r, kw, False, "build", None, v)        # absorbing failures is a parse-side contract: no construct may swallow a failing write
         ctx.count("c_recipes")
         if i < len(extra) + 1 and ctx.index < 2:
             ctx.sample({"monitor": "c", "recipe": r, "every_op_index_x_fault_kind": True})
